@@ -3,6 +3,7 @@ package harness
 import (
 	"fmt"
 	"strings"
+	"unicode/utf8"
 
 	"github.com/opsidian/parsley/ast"
 	"github.com/opsidian/parsley/combinator"
@@ -25,6 +26,12 @@ type Probe struct {
 	evals map[[2]int]int
 	// requests to a Memoize wrapper per (key, pos)
 	asks map[[2]int]int
+	// TrackAnswers (left-recursion-free grammars only: there an answer cannot depend on the calling
+	// context): what every Memoize wrapper returned per position - result rendering and error -, and
+	// the first disagreement between two answers of one wrapper at one position
+	TrackAnswers bool
+	answers      map[[2]int]string
+	AnswerDiff   string
 	// snapshots (C07)
 	Snap  bool
 	snaps []snap
@@ -115,6 +122,9 @@ type BuildOpts struct {
 	// CloneTrimOperand hands RightTrim a private copy of its operand's result, so that its
 	// in-place SetReaderPos (known finding KF-1) cannot reach a node anybody else holds.
 	CloneTrimOperand bool
+	// Wide != 0: the terminal 'b' of the model is built as this (multi-byte) rune; the input is
+	// transliterated accordingly (widen) and offsets are mapped back before they are compared
+	Wide rune
 }
 
 // Built is a grammar turned into parsers.
@@ -174,7 +184,24 @@ func Build(g *Grammar, o BuildOpts) *Built {
 			mm := m
 			m = parser.Func(func(ctx *parsley.Context, l data.IntMap, pos parsley.Pos) (parsley.Node, data.IntSet, parsley.Error) {
 				probe.asks[[2]int{key, int(pos)}]++
-				return mm.Parse(ctx, l, pos)
+				n, cp, err := mm.Parse(ctx, l, pos)
+				if probe.TrackAnswers {
+					if probe.answers == nil {
+						probe.answers = map[[2]int]string{}
+					}
+					sh, _ := shapeAndEnds(n, 1)
+					a := fmt.Sprintf("%s / error %v", sh, err)
+					if err != nil {
+						a += fmt.Sprintf(" at %d", int(err.Pos()))
+					}
+					k := [2]int{key, int(pos)}
+					if old, ok := probe.answers[k]; !ok {
+						probe.answers[k] = a
+					} else if old != a && probe.AnswerDiff == "" {
+						probe.AnswerDiff = fmt.Sprintf("the memoized %s answered at position %d first\n  %s\nand later\n  %s", who, int(pos)-1, old, a)
+					}
+				}
+				return n, cp, err
 			})
 		}
 		return observe("M:"+who, m, inTrim)
@@ -215,13 +242,30 @@ func Build(g *Grammar, o BuildOpts) *Built {
 		}
 		switch e.K {
 		case KTerm:
-			inner := terminal.Rune(rune(e.ch()))
+			tr := rune(e.ch())
+			if o.Wide != 0 && tr == 'b' {
+				tr = o.Wide
+			}
+			inner := terminal.Rune(tr)
 			p = inner
 			if probe != nil && probe.LogFails {
 				p = parser.Func(func(ctx *parsley.Context, l data.IntMap, pos parsley.Pos) (parsley.Node, data.IntSet, parsley.Error) {
 					n, cp, err := inner.Parse(ctx, l, pos)
 					if n == nil && err != nil {
 						probe.termFails = append(probe.termFails, failRec{int(pos), err.Error()})
+					}
+					return n, cp, err
+				})
+			}
+			if probe != nil && probe.Bound {
+				// a terminal consumes its rune: a match that ends where it started would let a repetition
+				// spin for ever (the budget would then silently discard the case)
+				q, width := p, utf8.RuneLen(tr)
+				p = parser.Func(func(ctx *parsley.Context, l data.IntMap, pos parsley.Pos) (parsley.Node, data.IntSet, parsley.Error) {
+					n, cp, err := q.Parse(ctx, l, pos)
+					// (U+FFFD also stands for one invalid byte: there it consumes 1 byte)
+					if n != nil && (int(n.ReaderPos()) <= int(pos) || (tr != utf8.RuneError && int(n.ReaderPos()) != int(pos)+width)) {
+						panic(boundExceeded{fmt.Sprintf("the terminal %q matched at position %d and ended at %d: it must consume exactly its %d byte(s)", string(tr), int(pos), int(n.ReaderPos()), width)})
 					}
 					return n, cp, err
 				})
@@ -454,6 +498,32 @@ func cloneResult(p parsley.Parser) parsley.Parser {
 }
 
 // NewCtxAt places the input file after a file of preLen bytes (preLen 0: alone, base 1).
+// wideMap is a transliterated input: every byte 'b' of the model's input stands for one
+// multi-byte rune in the text the library gets.
+type wideMap struct {
+	Lib string      // what the library parses
+	Off []int       // model offset -> library offset (len(in)+1 entries)
+	Inv map[int]int // library offset -> model offset (rune boundaries only)
+}
+
+func widen(in string, r rune) wideMap {
+	w := wideMap{Inv: map[int]int{}}
+	var sb strings.Builder
+	for i := 0; i <= len(in); i++ {
+		w.Off = append(w.Off, sb.Len())
+		w.Inv[sb.Len()] = i
+		if i < len(in) {
+			if r != 0 && in[i] == 'b' {
+				sb.WriteRune(r)
+			} else {
+				sb.WriteByte(in[i])
+			}
+		}
+	}
+	w.Lib = sb.String()
+	return w
+}
+
 // newFileOwned creates a file from a buffer the caller goes on using: the buffer (which has spare
 // capacity) is overwritten as soon as NewFile has returned. The file must not live in it.
 func newFileOwned(name string, data []byte) *text.File {
